@@ -21,6 +21,41 @@ class Closure:
             env[a.arg] = v
         return Lit(self.folder.repo, self.folder.modname, env, self.folder.hook(self.cls, self.self_obj)).ev(self.node.body)
 
+class DefClosure:
+    """A folded nested function (`def func(): ...` inside a method or function): the body runs in the enclosing environment as it is at the
+    time of the call (reads see later assignments of the enclosing scope, assignments stay local; `nonlocal` is not supported)."""
+    _sa_fold_ok = True
+    def __init__(self, node, env, folder, cls, self_obj):
+        self.node, self.env, self.folder, self.cls, self.self_obj = node, env, folder, cls, self_obj
+        if any(isinstance(x, ast.Nonlocal) for x in ast.walk(node)):
+            raise NotLiteral('nonlocal in a nested function')
+    def __call__(self, *args, **kw):
+        fn = self.node
+        params = [a.arg for a in fn.args.args]
+        env = dict(self.env)
+        env.update(zip(params, args))
+        if fn.args.vararg is not None:
+            env[fn.args.vararg.arg] = tuple(args[len(params):])
+        env.update(kw)
+        defaults = fn.args.defaults
+        for p, d in zip(params[len(params) - len(defaults):], defaults):
+            if p not in dict(zip(params, args)) and p not in kw:
+                env[p] = Lit(self.folder.repo, self.folder.modname, dict(self.env), self.folder.hook(self.cls, self.self_obj)).ev(d)
+        self.folder.depth += 1
+        if self.folder.depth > 60:
+            self.folder.depth -= 1
+            raise NotLiteral('call depth')
+        try:
+            ff = FuncFold(self.folder.repo, self.folder.modname, {}, self.folder.hook(self.cls, self.self_obj))
+            ff.attrs = None
+            return ff.call(fn, env)
+        finally:
+            self.folder.depth -= 1
+
+class _Env:
+    def __init__(self, env):
+        self.env = env
+
 class BoundMethod:
     """self.method taken as a value (stored in a dispatch table, passed as a callback) and called later."""
     _sa_fold_ok = True
@@ -247,6 +282,8 @@ class ClassFolder:
                 return None
             if isinstance(n, ast.Lambda):
                 return Closure(n, lit.env, self, cur_cls, cur_self)
+            if isinstance(n, ast.FunctionDef):
+                return DefClosure(n, lit.env, self, cur_cls, cur_self)
             if isinstance(n, ast.Attribute) and isinstance(n.ctx, ast.Load):
                 try:
                     base = lit.ev(n.value)
